@@ -350,8 +350,47 @@ class Writer:
         return acc
 
 
-def draw_lp(rng, layout=None, kind="any", risky=True, max_rows=5):
-    """A linear model as data + its written recipe."""
+def deep_affine(W, rng, coefs, const, nterms=405):
+    """sum coefs[n]*n + const written as a term-by-term accumulation of >= nterms scalar terms (beyond the depth at which optyx
+    switches to its iterative algorithms): every coefficient is split into exact pieces, cancelling pairs +k*v, -k*v fill up."""
+    terms = []
+    for nm, c in coefs.items():
+        if c == 0:
+            continue
+        k = rng.choice([1, 2, 3])
+        base = int(c * 4 / k) / 4.0
+        for _ in range(k - 1):
+            terms.append((nm, base))
+        terms.append((nm, c - base * (k - 1)))
+    names = list(coefs) or W.names
+    while len(terms) < nterms:
+        nm = rng.choice(names)
+        kk = rng.choice([0.25, 0.5, 1.0, 2.0])
+        terms.append((nm, kk))
+        terms.append((nm, -kk))
+    rng.shuffle(terms)
+    acc = None
+    for nm, c in terms:
+        v = W.elem[nm]
+        if acc is None:
+            acc = ["bin", "*", ["raw", c, "float"], v]
+            continue
+        r = rng.random()
+        if r < 0.6:
+            acc = ["bin", "+", acc, ["bin", "*", ["raw", c, "float"], v]]
+        elif r < 0.85:
+            acc = ["bin", "-", acc, ["bin", "*", ["raw", -c, "float"], v]]
+        else:
+            acc = ["bin", "+", acc, ["bin", "*", v, ["raw", c, "float"]]]
+    if const != 0 or rng.random() < 0.3:
+        acc = ["bin", "+", acc, ["raw", float(const), "float"]]
+    return acc
+
+
+def draw_lp(rng, layout=None, kind="any", risky=True, max_rows=5, tiny_rows=False, deep_objective=False):
+    """A linear model as data + its written recipe.
+    tiny_rows: some general rows are multiplied by 2**-30 (coefficients and right-hand side; exact) - legitimate small-unit rows;
+    deep_objective: the objective is written as an accumulation of 400+ scalar terms."""
     layout = layout or rng.choice(LAYOUTS)
     bounds_mode = {"optimal": "boxed", "unbounded": "free"}.get(kind, "mixed")
     decls = draw_decls(rng, layout, bounds_mode)
@@ -393,6 +432,9 @@ def draw_lp(rng, layout=None, kind="any", risky=True, max_rows=5):
 
         fam = [(vn, nms) for vn, nms in W.views() + W.views() if base_name(vn) == container["name"]]
         fam = [(vn, nms) for vn, nms in fam if nms]
+        if container["k"] == "vec" and rng.random() < 0.35:
+            # every expression over the SAME whole-vector object (the variable-discovery shortcut for single-vector models)
+            fam = [(vn, nms) for vn, nms in fam if vn[0] == "vec"]
         ov = rng.choice(fam)
         c = {nm: 0.0 for nm in names}
         for nm in ov[1]:
@@ -449,8 +491,15 @@ def draw_lp(rng, layout=None, kind="any", risky=True, max_rows=5):
             form = "reflected" if (rng.random() < 0.25 and s != "==") else "direct"
             if form == "reflected" and rhs_node[0] == "raw":
                 form = "direct"
-            cons.append(["rel", s, lhs, rhs_node, form])
-            rows.append({"coef": coef, "sense": s, "rhs": rhs})
+            if tiny_rows and rng.random() < 0.4:
+                ts = 2.0 ** -30
+                rhs_all = rhs_node if rhs_node[0] != "raw" else ["raw", float(rhs_node[1]), "float"]
+                cons.append(["rel", s, ["bin", "*", ["raw", ts, "float"], lhs],
+                             (["bin", "*", rhs_all, ["raw", ts, "float"]] if rhs_all[0] != "raw" else ["raw", float(rhs_all[1]) * ts, "float"]), "direct"])
+                rows.append({"coef": {nm: v * ts for nm, v in coef.items()}, "sense": s, "rhs": rhs * ts, "scale": ts})
+            else:
+                cons.append(["rel", s, lhs, rhs_node, form])
+                rows.append({"coef": coef, "sense": s, "rhs": rhs})
         elif r < 0.88:
             # element-wise vector constraint  view (s) scalar | array
             vecnode, vnames = rng.choice(W.views())
@@ -489,7 +538,10 @@ def draw_lp(rng, layout=None, kind="any", risky=True, max_rows=5):
         for s, rv in (("<=", bv), (">=", bv + gap)):
             cons.append(["rel", s, W.affine(coef, 0.0, mention_all=True), ["raw", rv, "float"], "direct"])
             rows.append({"coef": dict(coef), "sense": s, "rhs": rv})
-    obj = pure_obj if pure else W.affine(c, c0, mention_all=(rng.random() < 0.3))
+    if deep_objective and not pure:
+        obj = deep_affine(W, rng, c, c0, nterms=rng.choice([402, 420, 450]))
+    else:
+        obj = pure_obj if pure else W.affine(c, c0, mention_all=(rng.random() < 0.3))
     # bounds assigned on the Variable objects after construction (v.lb = ..., v.ub = ...): fixing a binary decision at 0 / 1,
     # tightening a box.  Ground truth = the edited bounds.
     bound_edits = {}
@@ -512,7 +564,7 @@ def draw_lp(rng, layout=None, kind="any", risky=True, max_rows=5):
     return {
         "bound_edits": bound_edits,
         "decls": decls,
-        "layout": layout + ("/pure-views" if pure else ""),
+        "layout": layout + ("/pure-views" if pure else "") + ("/deep-objective" if deep_objective and not pure else ""),
         "kind": kind,
         "c": c,
         "c0": c0,
